@@ -5,6 +5,8 @@ import Sudachi.Proofs.CodecLayout
 import Sudachi.Proofs.CodecFile
 import Sudachi.Proofs.CodecCsv
 import Sudachi.Proofs.CodecFields
+import Sudachi.Proofs.CodecSubset
+import Sudachi.Props.C11
 /-!
 # C05 — compile-then-load round trip preserves every dictionary field, deterministically
 
@@ -887,5 +889,258 @@ example (own sys : List ResolverRow) : resolveUnit own sys (.ref 5) = some 5 := 
 example : resolveUnit [([1], 0, none, 7), ([1], 0, none, 8)] [([1], 0, none, 9)] (.inline [1] 0 none) = some 7 ∧
     resolveUnit [([2], 0, none, 7)] [([1], 0, none, 9)] (.inline [1] 0 none) = some 9 ∧
     resolveUnit [([2], 0, none, 7)] [([1], 0, none, 9)] (.inline [1] 1 none) = none := by decide
+
+/-! ## the round trip through PARTIAL field subsets (composition with the C11 reader model)
+
+`wordinfo_roundtrip` reads the written record with all fields.  The loaded dictionary hands fields out through partial
+requests as well (`WordInfoParser::subset`: the lattice asks for POS_ID, the user-dictionary resolver for
+SURFACE|READING_FORM|POS_ID, ...); there the reader SKIPS what was not asked for (`skip_u16_string`, `skip_wid_array`,
+`skip_u32_array` - transcribed byte for byte in `Model/Subset.lean`: `skipU16String` goes through `string_length_parser`
+and so honours the two-byte prefix, `skipArray` takes a one-byte count and panics on a short slice).  The bridge
+`CodecSubset.encodeBytes_toSub` shows that the bytes `write_word_info` writes (`Codec.encWordInfo`, this property's
+writer model) are exactly the record `C11.subset_fields_eq` is stated about. -/
+
+/-- **Clause "loading yields for every entry exactly the declared data", for EVERY request.**  For every well-formed
+declared entry `e`, every request `T` (any of the 1024 masks, junk bits included) and any bytes after the record: the
+subset parser succeeds on what `write_word_info` wrote, and every field IN the request is the declared one - headword,
+key length, POS id, dictionary-form id, split units, word structure, synonym groups as stored values; the normalised
+form and the reading through the accessors `normalized_form()` / `reading_form()` whenever the request also holds the
+headword they fall back to (declared value **unless declared empty**, as in `wordinfo_roundtrip`: F-EMPTY).  Strings
+of 127..32767 UTF-16 units (two-byte length prefix) are not special cases: `Entry.WF` allows every length `0..32767`
+for each of the three strings, whether the string is asked for (parsed) or not (skipped). -/
+theorem subset_roundtrip (e : Entry) (wf : e.WF) (T : Nat) (rest : Bytes) :
+    ∃ wi, Subset.parse T (encWordInfo e ++ rest) = .ok wi ∧
+      (T.testBit Subset.SURFACE = true → wi.surface = e.headwordS) ∧
+      (T.testBit Subset.HEAD_WORD_LENGTH = true → wi.headWordLength = utf8LenStr e.surface) ∧
+      (T.testBit Subset.POS_ID = true → wi.posId = e.pos) ∧
+      (T.testBit Subset.NORMALIZED_FORM = true → T.testBit Subset.SURFACE = true →
+        Subset.accNormalizedForm wi = (if e.normS = [] then e.headwordS else e.normS)) ∧
+      (T.testBit Subset.DIC_FORM_WORD_ID = true → wi.dictionaryFormWordId = u32ToI e.dicForm) ∧
+      (T.testBit Subset.READING_FORM = true → T.testBit Subset.SURFACE = true →
+        Subset.accReadingForm wi = (if e.readingS = [] then e.headwordS else e.readingS)) ∧
+      (T.testBit Subset.SPLIT_A = true → wi.aUnitSplit = e.splitsA) ∧
+      (T.testBit Subset.SPLIT_B = true → wi.bUnitSplit = e.splitsB) ∧
+      (T.testBit Subset.WORD_STRUCTURE = true → wi.wordStructure = e.wordStructure) ∧
+      (T.testBit Subset.SYNONYM_GROUP_ID = true → wi.synonymGroupIds = e.synonyms) := by
+  obtain ⟨i1, _, e1, _, _, hf⟩ := C11.subset_fields_eq (CodecSubset.toSub e) (CodecSubset.toSub_wf e wf) T rest
+  rw [CodecSubset.encodeBytes_toSub e wf] at e1
+  refine ⟨i1, e1, hf.surface, hf.headWordLength, hf.posId, ?_, hf.dictionaryFormWordId, ?_, hf.aUnitSplit, hf.bUnitSplit,
+    hf.wordStructure, hf.synonymGroupIds⟩
+  · intro h3 h0
+    simp only [Subset.accNormalizedForm, hf.normalizedForm h3, hf.surface h0, CodecSubset.toSub, stored, List.isEmpty_iff]
+    by_cases h1 : e.normS = e.headwordS
+    · by_cases h2 : e.normS = []
+      · simp [h1]
+      · simp [h1]
+    · by_cases h2 : e.normS = []
+      · simp [h2]
+      · simp [h1, h2]
+  · intro h5 h0
+    simp only [Subset.accReadingForm, hf.readingForm h5, hf.surface h0, CodecSubset.toSub, stored, List.isEmpty_iff]
+    by_cases h1 : e.readingS = e.headwordS
+    · by_cases h2 : e.readingS = []
+      · simp [h1]
+      · simp [h1]
+    · by_cases h2 : e.readingS = []
+      · simp [h2]
+      · simp [h1, h2]
+
+/-- **The same at the level the analyser uses it** (`set_subset` / `InfoSubset::normalize`, both code variants of
+`normalize`): what is loaded for a request `S` is `normalize S`; every field `f ∈ S` - the two forms through their
+accessors, with the fall-back to the headword that `normalize` makes available - equals the declared value. -/
+theorem subset_roundtrip_normalized (v : Subset.NzVariant) (e : Entry) (wf : e.WF) (S : Nat) (rest : Bytes) :
+    ∃ wi, Subset.parse (Subset.normalize v S) (encWordInfo e ++ rest) = .ok wi ∧
+      (S.testBit Subset.SURFACE = true → wi.surface = e.headwordS) ∧
+      (S.testBit Subset.HEAD_WORD_LENGTH = true → wi.headWordLength = utf8LenStr e.surface) ∧
+      (S.testBit Subset.POS_ID = true → wi.posId = e.pos) ∧
+      (S.testBit Subset.NORMALIZED_FORM = true →
+        Subset.accNormalizedForm wi = (if e.normS = [] then e.headwordS else e.normS)) ∧
+      (S.testBit Subset.DIC_FORM_WORD_ID = true → wi.dictionaryFormWordId = u32ToI e.dicForm) ∧
+      (S.testBit Subset.READING_FORM = true →
+        Subset.accReadingForm wi = (if e.readingS = [] then e.headwordS else e.readingS)) ∧
+      (S.testBit Subset.SPLIT_A = true → wi.aUnitSplit = e.splitsA) ∧
+      (S.testBit Subset.SPLIT_B = true → wi.bUnitSplit = e.splitsB) ∧
+      (S.testBit Subset.WORD_STRUCTURE = true → wi.wordStructure = e.wordStructure) ∧
+      (S.testBit Subset.SYNONYM_GROUP_ID = true → wi.synonymGroupIds = e.synonyms) := by
+  obtain ⟨wi, h, f0, f1, f2, f3, f4, f5, f6, f7, f8, f9⟩ := subset_roundtrip e wf (Subset.normalize v S) rest
+  have up := fun b hb => Subset.testBit_normalize_of v S b hb
+  exact ⟨wi, h, fun hb => f0 (up _ hb), fun hb => f1 (up _ hb), fun hb => f2 (up _ hb),
+    fun hb => f3 (up _ hb) (Subset.normalize_surface_of_forms v S (Or.inr hb)), fun hb => f4 (up _ hb),
+    fun hb => f5 (up _ hb) (Subset.normalize_surface_of_forms v S (Or.inl hb)), fun hb => f6 (up _ hb),
+    fun hb => f7 (up _ hb), fun hb => f8 (up _ hb), fun hb => f9 (up _ hb)⟩
+
+/-- **The 127/128 boundary, spelled out.**  When the headword has 127 or more UTF-16 units the record BEGINS with a
+two-byte length prefix (first byte `0x80 | hi`, second byte `lo`), and a request that does not hold the headword - so
+that the reader must skip exactly `2 + 2 * units` bytes - still returns every later field it asks for; stated for the
+POS id (the lattice's request) and the synonym groups (the last field: everything before it is skipped). -/
+theorem subset_skips_two_byte_prefix (e : Entry) (wf : e.WF) (hlong : 127 ≤ (units e.headwordS).length)
+    (T : Nat) (_hT : T.testBit Subset.SURFACE = false) (rest : Bytes) :
+    (∃ b0 b1 tl, encWordInfo e = b0 :: b1 :: tl ∧ 128 ≤ b0 ∧ (b0 - 128) * 256 + b1 = (units e.headwordS).length) ∧
+    ∃ wi, Subset.parse T (encWordInfo e ++ rest) = .ok wi ∧
+      (T.testBit Subset.POS_ID = true → wi.posId = e.pos) ∧
+      (T.testBit Subset.SYNONYM_GROUP_ID = true → wi.synonymGroupIds = e.synonyms) := by
+  refine ⟨?_, ?_⟩
+  · have hn := wf.hw.2
+    have hq : (units e.headwordS).length / 256 < 128 := by omega
+    have e0 := (lor128 ((units e.headwordS).length / 256) hq).1
+    have e1 : ((units e.headwordS).length >>> 8) % 256 = (units e.headwordS).length / 256 := by
+      rw [Nat.shiftRight_eq_div_pow]
+      omega
+    have e2 : (units e.headwordS).length % 256 &&& 0xff = (units e.headwordS).length % 256 := by
+      have := Nat.and_two_pow_sub_one_eq_mod ((units e.headwordS).length % 256) 8
+      simp at this
+      omega
+    refine ⟨(units e.headwordS).length / 256 + 128, (units e.headwordS).length % 256, (encWordInfo e).drop 2, ?_, by omega, by omega⟩
+    simp only [encWordInfo, encStr, encLen, show ¬ (units e.headwordS).length < 127 by omega, if_false, e1, e2, e0,
+      List.cons_append, List.nil_append, List.append_assoc, List.drop_succ_cons, List.drop_zero]
+  · obtain ⟨wi, h, _, _, f2, _, _, _, _, _, _, f9⟩ := subset_roundtrip e wf T rest
+    exact ⟨wi, h, f2, f9⟩
+
+/-- an entry whose three strings sit on both sides of the boundary: headword 128 units, normalised form 127 units,
+reading 126 units (key `a`), with a split unit, a word-structure unit and two synonym groups -/
+def boundaryEntry : Entry :=
+  { left := 0, right := 0, cost := 0, surface := [97], headword := some (List.replicate 128 97), dicForm := INVALID_WID,
+    normForm := some (List.replicate 127 98), pos := 5, splitsA := [3], splitsB := [], reading := some (List.replicate 126 12354),
+    wordStructure := [2], synonyms := [7, 8] }
+
+set_option maxRecDepth 100000 in
+/-- non-vacuity of `Entry.WF` at the boundary -/
+theorem boundaryEntry_wf : boundaryEntry.WF :=
+  { hw := ⟨fun c hc => by simp [boundaryEntry, Entry.headwordS] at hc; subst hc; exact Or.inl (by decide), by decide⟩,
+    nf := ⟨fun c hc => by simp [boundaryEntry, Entry.normS] at hc; subst hc; exact Or.inl (by decide), by decide⟩,
+    rd := ⟨fun c hc => by simp [boundaryEntry, Entry.readingS] at hc; subst hc; exact Or.inl (by decide), by decide⟩,
+    key := by decide, pos := by decide, df := by decide,
+    a := ⟨by decide, fun x hx => by simp [boundaryEntry] at hx; subst hx; decide⟩, b := ⟨by decide, fun x hx => by simp [boundaryEntry] at hx⟩,
+    ws := ⟨by decide, fun x hx => by simp [boundaryEntry] at hx; subst hx; decide⟩,
+    syn := ⟨by decide, fun x hx => by simp [boundaryEntry] at hx; rcases hx with rfl | rfl <;> decide⟩ }
+
+/-- the lattice's request on the boundary entry: POS id 5 comes back although a 128-unit headword (prefix `[128, 128]`)
+is skipped -/
+example (rest : Bytes) : ∃ wi, Subset.parse (2 ^ Subset.POS_ID) (encWordInfo boundaryEntry ++ rest) = .ok wi ∧ wi.posId = 5 := by
+  obtain ⟨wi, h, _, _, f2, _⟩ := subset_roundtrip boundaryEntry boundaryEntry_wf (2 ^ Subset.POS_ID) rest
+  exact ⟨wi, h, f2 (by decide)⟩
+set_option maxRecDepth 100000 in
+/-- the resolver's request: headword (128 units, parsed), POS id, reading (126 units, parsed), the 127-unit normalised
+form in between skipped -/
+example (rest : Bytes) : ∃ wi, Subset.parse (2 ^ Subset.SURFACE ||| 2 ^ Subset.READING_FORM ||| 2 ^ Subset.POS_ID)
+      (encWordInfo boundaryEntry ++ rest) = .ok wi ∧
+    wi.surface = List.replicate 128 97 ∧ Subset.accReadingForm wi = List.replicate 126 12354 ∧ wi.posId = 5 := by
+  obtain ⟨wi, h, f0, _, f2, _, _, f5, _⟩ :=
+    subset_roundtrip boundaryEntry boundaryEntry_wf (2 ^ Subset.SURFACE ||| 2 ^ Subset.READING_FORM ||| 2 ^ Subset.POS_ID) rest
+  refine ⟨wi, h, f0 (by decide), ?_, f2 (by decide)⟩
+  rw [f5 (by decide) (by decide)]
+  decide
+set_option maxRecDepth 100000 in
+/-- hypotheses of `subset_skips_two_byte_prefix` are satisfiable, and its first claim is about real bytes -/
+example : 127 ≤ (units boundaryEntry.headwordS).length ∧ (2 ^ Subset.POS_ID).testBit Subset.SURFACE = false ∧
+    (encWordInfo boundaryEntry).take 2 = [128, 128] := by decide
+set_option maxRecDepth 100000 in
+/-- `normalize` in front: asking for the normalised form alone loads the headword too -/
+example (rest : Bytes) : ∃ wi, Subset.parse (Subset.normalize .fix (2 ^ Subset.NORMALIZED_FORM)) (encWordInfo boundaryEntry ++ rest) = .ok wi ∧
+    Subset.accNormalizedForm wi = List.replicate 127 98 := by
+  obtain ⟨wi, h, _, _, _, f3, _⟩ := subset_roundtrip_normalized .fix boundaryEntry boundaryEntry_wf (2 ^ Subset.NORMALIZED_FORM) rest
+  refine ⟨wi, h, ?_⟩
+  rw [f3 (by decide)]
+  decide
+
+/-- the dictionary form a row of a SYSTEM dictionary declares: the headword of the entry column 13 names, the own
+headword for `*` (stored -1) and for a row naming itself (an empty headword of the named entry cannot be told from "none") -/
+def declDicForm (es : List Entry) (k : Nat) (e : Entry) : Str :=
+  if u32ToI e.dicForm ≥ 0 ∧ u32ToI e.dicForm ≠ (k : Int) then
+    match es[(u32ToI e.dicForm).toNat]? with
+    | some t => if t.headwordS = [] then e.headwordS else t.headwordS
+    | none => e.headwordS
+  else e.headwordS
+
+/-- **Dictionary form through a partial request, at `WordInfos::get_word_info`** (composition with
+`Subset.getWordInfo_spec_full`, the spec behind `C11.get_word_info_fields_eq`).  In a lexicon whose records are what
+`write_word_info` wrote for well-formed declared entries `es` with dictionary-form references inside the lexicon (a
+system dictionary that passed `validate_entries`), for every entry `k` and EVERY request `T` that holds the
+dictionary-form id and the headword (what `normalize` makes of a request for the dictionary form): the call succeeds,
+the id is the declared one and `dictionary_form()` is the headword of the entry the row names - whatever else `T`
+asks for or skips, whatever the lengths of the strings in between. -/
+theorem subset_dicform_roundtrip (es : List Entry) (hwf : ∀ e ∈ es, e.WF)
+    (hdf : ∀ e ∈ es, u32ToI e.dicForm < 0 ∨ (u32ToI e.dicForm).toNat < es.length)
+    (k : Nat) (hk : k < es.length) (T : Nat)
+    (h4 : T.testBit Subset.DIC_FORM_WORD_ID = true) (h0 : T.testBit Subset.SURFACE = true) :
+    ∃ wi, Subset.getWordInfo ⟨es.map encWordInfo, true⟩ k T = .ok wi ∧
+      wi.dictionaryFormWordId = u32ToI es[k].dicForm ∧
+      Subset.accDictionaryForm wi = declDicForm es k es[k] := by
+  have hrecs : (es.map CodecSubset.toSub).map Subset.encodeBytes = es.map encWordInfo := by
+    rw [List.map_map]
+    exact List.map_congr_left (fun e he => CodecSubset.encodeBytes_toSub e (hwf e he))
+  have hwf' : ∀ w ∈ es.map CodecSubset.toSub, Subset.WF w := by
+    intro w hw
+    obtain ⟨e, he, rfl⟩ := List.mem_map.mp hw
+    exact CodecSubset.toSub_wf e (hwf e he)
+  have hdf' : Subset.DfOk (es.map CodecSubset.toSub) := by
+    intro w hw
+    obtain ⟨e, he, rfl⟩ := List.mem_map.mp hw
+    simpa [CodecSubset.toSub] using hdf e he
+  have hk' : k < (es.map CodecSubset.toSub).length := by simpa using hk
+  obtain ⟨wi, e1, l1, _, d1, _⟩ := Subset.getWordInfo_spec_full (es.map CodecSubset.toSub) hwf' hdf' true k hk' T
+  have eff : Subset.effSubset true T = T := by simp [Subset.effSubset]
+  rw [eff] at l1 d1
+  have L4 : Subset.Loaded T 4 := ⟨by omega, Or.inl h4⟩
+  have L0 : Subset.Loaded T 0 := ⟨by omega, Or.inl h0⟩
+  have s0 := l1 0 L0
+  have s4 := l1 4 L4
+  have dd := d1 L4
+  simp only [Subset.proj] at s0 s4
+  simp [CodecSubset.toSub] at s0 s4
+  refine ⟨wi, ?_, s4, ?_⟩
+  · rw [← hrecs]; exact e1
+  · simp only [Subset.accDictionaryForm, dd, s0, Subset.dicFormOf, declDicForm, List.getElem_map, CodecSubset.toSub,
+      List.getElem?_map, List.isEmpty_iff]
+    split
+    · cases es[(u32ToI es[k].dicForm).toNat]? with
+      | none => simp
+      | some t =>
+        simp only [Option.map_some, Option.getD_some]
+        have hs : (CodecSubset.toSub t).surface = t.headwordS := rfl
+        by_cases ht : t.headwordS = []
+        · simp [ht, hs]
+        · simp [ht, hs]
+    · simp
+
+set_option maxRecDepth 100000 in
+/-- non-vacuity: two entries, the second (headword of 128 units) names the first as its dictionary form -/
+example : (Subset.getWordInfo ⟨[plainEntry [12354] INVALID_WID, { boundaryEntry with dicForm := 0 }].map encWordInfo, true⟩ 1
+      (2 ^ Subset.DIC_FORM_WORD_ID ||| 2 ^ Subset.SURFACE ||| 2 ^ Subset.SYNONYM_GROUP_ID)).bind
+      (fun wi => .ok (Subset.accDictionaryForm wi, wi.dictionaryFormWordId, wi.synonymGroupIds, wi.posId)) =
+    .ok ([12354], 0, [7, 8], 5) := by decide
+
+/-- the hypotheses of `subset_dicform_roundtrip` are satisfiable (a one-entry lexicon, dictionary form `*`) and the
+theorem then answers the own 128-unit headword -/
+example : ∃ wi, Subset.getWordInfo ⟨[boundaryEntry].map encWordInfo, true⟩ 0 (2 ^ Subset.DIC_FORM_WORD_ID ||| 2 ^ Subset.SURFACE) = .ok wi ∧
+    Subset.accDictionaryForm wi = List.replicate 128 97 := by
+  obtain ⟨wi, h, _, hd⟩ := subset_dicform_roundtrip [boundaryEntry]
+    (fun e he => by simp at he; subst he; exact boundaryEntry_wf) (fun e he => by simp at he; subst he; exact Or.inl (by decide))
+    0 (by simp) (2 ^ Subset.DIC_FORM_WORD_ID ||| 2 ^ Subset.SURFACE) (by decide) (by decide)
+  refine ⟨wi, h, ?_⟩
+  rw [hd]
+  decide
+
+/-- for contrast, the skip of seeded change C05e (`skip_prefixed`: ONE-byte count times the item size, `OutOfBounds`
+instead of the slice panic) - right for the arrays, not for strings -/
+def skipOneByteCount (itemSize : Nat) (input : Bytes) : Subset.Res Bytes :=
+  match Subset.leU8 input with
+  | .ok (length, rest) => if rest.length < length * itemSize then .err else .ok (rest.drop (length * itemSize))
+  | .err => .err
+  | .panic => .panic
+
+set_option maxRecDepth 100000 in
+/-- **Why the skip must read the prefix the way the writer wrote it.**  Kernel-checked witness: on a 126-unit string
+the one-byte-count skip and `skip_u16_string` agree; on the 127-unit string (written `[128, 127]`) `skip_u16_string`
+lands behind the string, while the one-byte-count skip takes the first prefix byte `128` for the length and consumes
+256 bytes - the second prefix byte, the 254 bytes of the string and ONE BYTE OF THE NEXT FIELD - so that the key length
+and the POS id read next are garbage (with longer strings it stops inside the string instead).  The arrays are
+unaffected (one-byte count on both sides). -/
+theorem skip_one_byte_count_counterexample :
+    skipOneByteCount 2 (encStr (List.replicate 126 97) ++ [5, 0, 9]) = .ok [5, 0, 9] ∧
+    Subset.skipU16String (encStr (List.replicate 127 97) ++ [5, 0, 9]) = .ok [5, 0, 9] ∧
+    skipOneByteCount 2 (encStr (List.replicate 127 97) ++ [5, 0, 9]) = .ok [0, 9] ∧
+    skipOneByteCount 4 (encU32s (List.replicate 127 7) ++ [5, 0]) = Subset.skipArray (encU32s (List.replicate 127 7) ++ [5, 0]) := by
+  decide
 
 end C05
